@@ -115,5 +115,15 @@ def wantedFrac (sf : Format.SecondsFormat) (n : Nat) : Nat × Nat :=
     if n = 0 then (0, 0) else if n % 1000000 = 0 then (3, n / 1000000)
     else if n % 1000 = 0 then (6, n / 1000) else (9, n)
 
+/-- wall clocks (seconds since 1970-01-01T00:00:00 local) whose calendar year is 0–9999: from
+0000-01-01T00:00:00 up to, not including, 10000-01-01T00:00:00 -/
+def WallYear0to9999 (w : Int) : Prop :=
+  (dayNum 0 1 1 - EPOCH_DAY) * 86400 ≤ w ∧ w < (dayNum 10000 1 1 - EPOCH_DAY) * 86400
+instance (w : Int) : Decidable (WallYear0to9999 w) := by unfold WallYear0to9999; exact inferInstance
+
+/-- the nanoseconds that survive the requested precision -/
+def keptNanos (sf : Format.SecondsFormat) (n : Nat) : Nat :=
+  (wantedFrac sf n).2 * 10 ^ (9 - (wantedFrac sf n).1)
+
 end Rfc3339
 end Chrono.Spec
